@@ -27,6 +27,12 @@ CHECKS = {
     "C17": ("proof",
             "Lean theorems C17_history / C17_first_entry (one entry per executed generation, none without keep_history, entries only ever appended, max = first arg-max of the entry, population_g[0] = init) and heap theorems C17_snapshots / C17_inputs / C17_get (copies are immune to later writes; caller arrays untouched; returned objects are fresh). Tied by deep snapshots taken at record time vs final get_stats(), np.shares_memory, caller-owned init_population compared before/after, for all ten optimizers.",
             "§6 C17", "Lean 4 proof (state machine + heap model) + trace validation", "Python aliasing is modelled by an explicit heap; that the code follows the copy discipline is observed (shares_memory, snapshots), not proved"),
+    "C06": ("proof",
+            "Lean theorems C06_* over all parent tuples, lengths and random choices: every crossover returns at each locus a gene of a supplied parent (hence binary closure), named structures (clone; prefix+suffix for one cut; inclusive segment for two cuts; per-locus choice; binomial with forced locus) as equalities, surjectivity onto every child of that structure, flip semantics and the rate extremes, closure of a whole variation step for GA/SelfCGA/PDPGA and SHAGA. Tied by exact replay of every operator with mirrored RNG draws, outcome-set coverage on small strings, pool tables of live instances, and recording wrappers in the pools of live optimizers.",
+            "§6 C06", "Lean 4 proof + exact operator correspondence (mirrored draws) + wiring observation", ""),
+    "C07": ("proof",
+            "Lean theorems C07_* over Rat: clamp / parent-midpoint repair land in any box with left ≤ right and change only outside coordinates; binomial structure; donor lengths, coordinate forms and F = 0 collapse for all six strategies; every DE/jDE/SHADE trial is in the box; greedy replacement and the box invariant over any number of generations. Tied by exact correspondence of repair, donors (integer populations, dyadic F, mirrored index draws) and binomial, and by runs of DE/jDE/SHADE on objectives that reward leaving the box over scalar/per-coordinate/degenerate/asymmetric boxes.",
+            "§6 C07", "Lean 4 proof + exact operator correspondence + box observation on runs", "linear donor forms hold over Rat; doubles are compared on exactly representable inputs"),
     "C10": ("proof",
             "Lean theorems C10_* (bit/Gray round trips for all widths, one-bit adjacency of successive Gray codes, grid formula, endpoints, box, injectivity, encode∘decode = id, decode∘encode nearest grid point, fixed output length, bits-from-step) over exact rationals; tied to SamplingGrid/GrayCode by exhaustive correspondence over all bit strings of small widths and all small bits-per-variable vectors.",
             "§6 C10", "Lean 4 proof + exact model/implementation correspondence (exhaustive small widths)", "np.rint ties and float rounding of left+h*k observed at 1e-9, not proved"),
